@@ -1,6 +1,7 @@
 import PoseVerif.Model.PoseOps
 import PoseVerif.Model.Spatial
 import PoseVerif.Model.Interp
+import PoseVerif.Model.Normalize3D
 import PoseVerif.Driver.Masked
 /-! Driver: pose-body operations on the three backends (Float scalars; flat JSON ↔ nested arrays). -/
 namespace PoseVerif.Driver
@@ -61,6 +62,26 @@ def runBodyOps (j : Json) : R Json := do
           pure (some b')
         | none => pure none
       | "interpolate" => do pure (interpolateBody floatScalar floatIsZero (← f64OfJson (← op.getObjVal? "new_fps")) (← getNat op "new_frames") b)
+      | "normalize" => do
+        match normalizeBody floatScalar floatIsZero (← getNat op "p1") (← getNat op "p2") (← f64OfJson (← op.getObjVal? "scale")) b with
+        | some (b', center, md) =>
+          out := out.push (Json.mkObj [("center", Json.arr (center.toArray.map f64J)), ("mean_distance", f64J md)])
+          pure (some b')
+        | none => pure none
+      | "normalize_distribution" => do
+        let allPoints := (op.getObjValAs? Bool "all_points").toOption.getD false
+        let (b', mu, sd) := normalizeDistribution floatScalar floatIsZero allPoints b
+        let tab (t : List (List (Option Float))) : Json := Json.arr (t.toArray.map fun r => Json.arr (r.toArray.map fun x => match x with | some v => f64J v | none => Json.null))
+        out := out.push (Json.mkObj [("mu", tab mu), ("std", tab sd)])
+        let back := (op.getObjValAs? Bool "unnormalize").toOption.getD false
+        pure (some (if back then unnormalizeDistribution floatScalar floatIsZero mu sd b' else b'))
+      | "normalize_3d" => do
+        let pl ← getNatArr (← op.getObjVal? "plane")
+        let ln ← getNatArr (← op.getObjVal? "line")
+        let info : Norm3DInfo := ⟨(pl.getD 0 0, pl.getD 1 0, pl.getD 2 0), (ln.getD 0 0, ln.getD 1 0)⟩
+        match normalize3DBody floatScalar floatIsZero info (← f64OfJson (← op.getObjVal? "size")) b with
+        | some (d, m) => pure (some { b with data := d, missing := m })
+        | none => pure none
       | "flatten" =>
         out := out.push (Json.mkObj [("rows", Json.arr ((flattenBody floatScalar floatIsZero b).toArray.map fun r => Json.arr (r.toArray.map f64J)))])
         pure (some b)
